@@ -19,39 +19,5 @@ def _oracle(desc, orig_blocks, g, k, payload):
     return check_conserved(orig_blocks, g)
 
 
-check, harness, _jobs, replay = make(_oracle, stages=(1, 2, 3), payloads=("basic", "bytecode", "ast"))
+check, harness, jobs, replay = make(_oracle, stages=(1, 2, 3), payloads=("basic", "bytecode", "ast"))
 
-# input blocks named inside the name generator's own namespace (two-digit indices included)
-NAME_SCHEMES = [
-    ["synth_asign_block_0", "synth_exit_latch_block_0", "synth_return_block_0", "loop_region_0", "synth_head_block_0"],
-    ["synth_asign_block_9", "synth_asign_block_10", "synth_exit_latch_block_10", "synth_asign_block_11", "loop_region_10"],
-    ["head_region_9", "head_region_10", "synth_tail_block_10", "synth_exit_block_10", "branch_region_10"],
-]
-
-
-def jobs(tier):
-    import z3
-    from vf.runner import Job
-    from vf.spaces import s1_space, realise_s1
-
-    js = _jobs(tier)
-    N = 4
-
-    def space():
-        f, cubes, aux = s1_space(N, entry=0 if tier == "quick" else None)
-        sc = z3.Int("scheme")
-        aux["scheme"] = sc
-        return z3.And(f, sc >= 0, sc < len(NAME_SCHEMES)), [sc] + cubes, aux
-
-    def h(E, ctx, aux):
-        d = realise_s1(E, aux)
-        sc = E.realize(aux["scheme"])
-        m = {f"b{i}": NAME_SCHEMES[sc][i] for i in range(N)}
-        desc = {"names": [m[n] for n in d["names"]], "succ": [[m[t] for t in s] for s in d["succ"]]}
-        ctx.current = desc
-        ctx.feature(f"name-scheme:{sc}")
-        harness(E, ctx, aux, desc)
-
-    js.insert(2, Job("S1-N4-names-in-generator-namespace", space, h,
-                     bounds={"space": "S1", "blocks": N, "name_schemes": NAME_SCHEMES, "entry": "b0" if tier == "quick" else "any"}, budget_s=900))
-    return js
